@@ -22,7 +22,8 @@ type (
 	StrV   struct{ T Term }
 	SliceV struct {
 		Ref, Len, Cap Term
-		Elems         []Val // known literal elements (varargs arrays), else nil
+		Elems         []Val      // known literal elements (varargs arrays), else nil
+		ElemT         types.Type // element type when known (set by loads / fresh values)
 	}
 	StructV struct {
 		T types.Type
@@ -42,11 +43,11 @@ type (
 	// component).  Otherwise a heap pointer: Base is the object id, Prefix names
 	// the field-map family ("v2.BlockReader", "v2.BlockReader.opts", "*int" ...).
 	PtrV struct {
-		Cell    *ssa.Alloc
-		Path    []int
-		Base    Term
-		Prefix  string
-		Pointee types.Type
+		Cell     *ssa.Alloc
+		Path     []int
+		Base     Term
+		Prefix   string
+		Pointee  types.Type
 		Interior bool // points inside the object Base (a field), not at the object itself
 		// element pointer into a slice/array (contents are not tracked unless Elems known)
 		ElemOf *SliceV
